@@ -353,20 +353,24 @@ class Parser:
         stream.expect(TOKEN_SLICE_STEP)
         step_token = stream.current
 
-        if not start_token.value:
-            start: Optional[int] = None
-        else:
-            start = int(start_token.value)
+        try:
+            if not start_token.value:
+                start: Optional[int] = None
+            else:
+                start = int(start_token.value)
 
-        if not stop_token.value:
-            stop: Optional[int] = None
-        else:
-            stop = int(stop_token.value)
+            if not stop_token.value:
+                stop: Optional[int] = None
+            else:
+                stop = int(stop_token.value)
 
-        if not step_token.value:
-            step: Optional[int] = None
-        else:
-            step = int(step_token.value)
+            if not step_token.value:
+                step: Optional[int] = None
+            else:
+                step = int(step_token.value)
+        except ValueError:
+            # The slice patterns also match a lone minus sign.
+            raise JSONPathSyntaxError("invalid slice", token=start_token) from None
 
         return SliceSelector(
             env=self.env,
